@@ -5,6 +5,7 @@ Pure `ast`: nothing under /repo is imported or executed.  The model is rebuilt
 from /repo's working tree on every run.
 """
 import ast
+import copy
 import os
 import string
 import warnings
@@ -60,6 +61,7 @@ class FuncInfo:
         self.generated = generated
         self.parent = parent            # enclosing FuncInfo for nested defs
         self.conditional = conditional  # 'if'/'else' for conditionally defined module functions
+        self.recording_helper = False   # private helper whose calls were expanded into the recorder methods
         a = node.args
         self.params = [x.arg for x in a.posonlyargs + a.args]
         self.kwonly = [x.arg for x in a.kwonlyargs]
@@ -151,6 +153,40 @@ class Model:
         self.generated = []     # FuncInfo of template-generated dispatchers
         self._load()
 
+    # --------------------------------------------------------------- inlining
+    def _inline_recording_helpers(self, mi):
+        """Recorder methods of the tracer classes may delegate the recording to a private straight-line helper of the
+        same class (`return self._binary_op(operator.add, rhs)`).  The rules on recorders read one method at a time,
+        so such calls are expanded in place (parameters substituted, clashing locals renamed); the helper is marked
+        `recording_helper` and is not a recorder site of its own."""
+        for ci in mi.classes.values():
+            helpers = {}
+            for name, h in ci.methods.items():
+                if not name.startswith('_') or name.startswith('__') or h.vararg or h.kwarg:
+                    continue
+                body = list(h.node.body)
+                if body and isinstance(body[0], ast.Expr) and isinstance(body[0].value, ast.Constant) and isinstance(body[0].value.value, str):
+                    body = body[1:]
+                if not body or not isinstance(body[-1], ast.Return) or body[-1].value is None:
+                    continue
+                if not all(isinstance(b, (ast.Assign, ast.AugAssign, ast.Expr)) for b in body[:-1]):
+                    continue
+                if not any(isinstance(c, ast.Call) and isinstance(c.func, ast.Attribute) and c.func.attr == 'pushforward' for b in body for c in ast.walk(b)):
+                    continue
+                helpers[name] = (h, body)
+            if not helpers:
+                continue
+            used = set()
+            for fi in ci.all_defs:
+                if fi.name in helpers:
+                    continue
+                new = _inline_calls(fi, ci.name, helpers, used)
+                if new is not None:
+                    fi.node = new
+            for name in used:
+                helpers[name][0].recording_helper = True
+                self.inlined.append(name)
+
     # ------------------------------------------------------------------ load
     def _load(self):
         for rel, modname in SCOPE:
@@ -173,6 +209,9 @@ class Model:
             self._scan_module(mi)
         for mi in list(self.modules.values()):
             self._expand_templates(mi)
+        self.inlined = []       # (caller FuncInfo, helper FuncInfo) pairs, see _inline_recording_helpers
+        if 'algopy.tracer.tracer' in self.modules:
+            self._inline_recording_helpers(self.modules['algopy.tracer.tracer'])
 
     def _resolve_relative(self, mi, level, module):
         if level == 0:
@@ -502,3 +541,198 @@ def walk_no_nested(node):
         if isinstance(n, (ast.FunctionDef, ast.ClassDef, ast.Lambda)):
             continue
         todo.extend(ast.iter_child_nodes(n))
+
+
+def must_raise(model, modname, body, depth=0):
+    """True when every path through the statement list ends in `raise` - directly or by calling a function
+    (resolved from module `modname`) all of whose paths raise."""
+    for st in body:
+        if isinstance(st, ast.Raise):
+            return True
+        if isinstance(st, ast.Return):
+            return False
+        if isinstance(st, ast.If):
+            if st.orelse and must_raise(model, modname, st.body, depth) and must_raise(model, modname, st.orelse, depth):
+                return True
+        if isinstance(st, ast.Expr) and isinstance(st.value, ast.Call) and depth < 3:
+            d = dotted_name(st.value.func)
+            tgt = model.resolve_dotted(modname, d) if d else None
+            if tgt is not None and tgt[0] == 'func' and must_raise(model, tgt[1].module, tgt[1].node.body, depth + 1):
+                return True
+    return False
+
+
+def _is_full_reverse_slice(sl):
+    return isinstance(sl, ast.Slice) and sl.lower is None and sl.upper is None and isinstance(sl.step, ast.UnaryOp) \
+        and isinstance(sl.step.op, ast.USub) and isinstance(sl.step.operand, ast.Constant) and sl.step.operand.value == 1
+
+
+def _call_of(node, name, nargs=None):
+    return isinstance(node, ast.Call) and isinstance(node.func, ast.Name) and node.func.id == name and not node.keywords \
+        and (nargs is None or len(node.args) == nargs)
+
+
+def seq_iteration(for_stmt):
+    """Recognise the idioms that visit *every* element of a sequence S once:
+        for e in S | enumerate(S) | S[::-1] | reversed(S) | enumerate(S[::-1]) ...
+        for i in range(len(S)) | reversed(range(len(S))) | range(len(S))[::-1] | range(len(S)-1, -1, -1)
+    -> (norm(S), 'fwd'|'rev', element) with element = the Name bound to the element (`e`, or `f` from a leading
+    `f = S[i]` in the body) or the text 'S[i]';  None when the loop is not one of these forms."""
+    it, tgt = for_stmt.iter, for_stmt.target
+    enum = False
+    if _call_of(it, 'enumerate', 1):
+        enum, it = True, it.args[0]
+    direction = 'fwd'
+    while True:
+        if _call_of(it, 'reversed', 1):
+            it = it.args[0]
+        elif isinstance(it, ast.Subscript) and _is_full_reverse_slice(it.slice):
+            it = it.value
+        elif _call_of(it, 'list', 1) or _call_of(it, 'tuple', 1):
+            it = it.args[0]
+            continue
+        else:
+            break
+        direction = 'rev' if direction == 'fwd' else 'fwd'
+    index_based = False
+    if _call_of(it, 'range'):
+        a = it.args
+        if len(a) == 1 and _call_of(a[0], 'len', 1):
+            seq = a[0].args[0]
+        elif len(a) == 3 and norm(a[1]) == '-1' and norm(a[2]) == '-1' and isinstance(a[0], ast.BinOp) \
+                and isinstance(a[0].op, ast.Sub) and norm(a[0].right) == '1' and _call_of(a[0].left, 'len', 1):
+            seq = a[0].left.args[0]
+            direction = 'rev' if direction == 'fwd' else 'fwd'
+        elif len(a) == 2 and norm(a[0]) == '0' and _call_of(a[1], 'len', 1):
+            seq = a[1].args[0]
+        else:
+            return None
+        index_based = True
+    else:
+        seq = it
+    if enum:
+        if not (isinstance(tgt, ast.Tuple) and len(tgt.elts) == 2):
+            return None
+        tgt = tgt.elts[1]
+    if not index_based:
+        return norm(seq), direction, (tgt.id if isinstance(tgt, ast.Name) else norm(tgt))
+    if not isinstance(tgt, ast.Name):
+        return None
+    want = '%s[%s]' % (norm(seq), tgt.id)
+    for st in for_stmt.body:
+        if isinstance(st, ast.Assign) and len(st.targets) == 1 and isinstance(st.targets[0], ast.Name) and norm(st.value) == want:
+            return norm(seq), direction, st.targets[0].id
+        if isinstance(st, (ast.Expr, ast.Pass)) and not any(isinstance(n, ast.Call) for n in ast.walk(st)):
+            continue
+        break
+    return norm(seq), direction, want
+
+
+class _Subst(ast.NodeTransformer):
+    def __init__(self, mapping):
+        self.mapping = mapping      # name -> ast expr (substitute) | str (rename)
+
+    def visit_Name(self, n):
+        m = self.mapping.get(n.id)
+        if m is None:
+            return n
+        if isinstance(m, str):
+            return ast.copy_location(ast.Name(id=m, ctx=n.ctx), n)
+        if isinstance(n.ctx, ast.Load):
+            return ast.copy_location(copy.deepcopy(m), n)
+        return n
+
+
+def _inline_calls(fi, clsname, helpers, used):
+    """-> new FunctionDef with helper calls expanded, or None if fi calls no helper"""
+    node = copy.deepcopy(fi.node)
+    caller_names = set(fi.params) | set(fi.kwonly) | {n.id for n in ast.walk(node) if isinstance(n, ast.Name) and isinstance(n.ctx, ast.Store)}
+    changed = [False]
+
+    def expand(st):
+        val = st.value if isinstance(st, (ast.Return, ast.Assign, ast.Expr)) else None
+        if not (isinstance(val, ast.Call) and isinstance(val.func, ast.Attribute) and isinstance(val.func.value, ast.Name)
+                and val.func.value.id in ('self', 'cls', clsname) and val.func.attr in helpers):
+            return None
+        if isinstance(st, ast.Assign) and not (len(st.targets) == 1 and isinstance(st.targets[0], ast.Name)):
+            return None
+        h, body = helpers[val.func.attr]
+        params = list(h.params)
+        recv = None
+        if h.kind in ('method', 'classmethod') and params:
+            recv, params = params[0], params[1:]
+        if any(isinstance(a, ast.Starred) for a in val.args) or any(k.arg is None for k in val.keywords) or len(val.args) > len(params):
+            return None
+        bound = dict(zip(params, val.args))
+        for k in val.keywords:
+            bound[k.arg] = k.value
+        for p_ in params:
+            if p_ not in bound:
+                if p_ not in h.defaults:
+                    return None
+                bound[p_] = h.defaults[p_]
+        assigned = {n.id for b in body for n in ast.walk(b) if isinstance(n, ast.Name) and isinstance(n.ctx, ast.Store)}
+        mapping, pre = {}, []
+        if recv is not None:
+            mapping[recv] = ast.Name(id=val.func.value.id, ctx=ast.Load())
+        for p_, e in bound.items():
+            if isinstance(e, ast.Name) and e.id == p_:
+                continue
+            simple = isinstance(e, ast.Constant) or dotted_name(e) is not None
+            if simple and p_ not in assigned:
+                mapping[p_] = e
+            else:
+                tgt = p_ if p_ not in caller_names else '%s__%s' % (p_, h.name.strip('_'))
+                if tgt != p_:
+                    mapping[p_] = tgt
+                pre.append(ast.copy_location(ast.Assign(targets=[ast.Name(id=tgt, ctx=ast.Store())], value=copy.deepcopy(e), lineno=st.lineno), st))
+        for loc in assigned - set(bound):
+            if loc in caller_names:
+                mapping[loc] = '%s__%s' % (loc, h.name.strip('_'))
+        sub = _Subst(mapping)
+        out = list(pre)
+        for b in body[:-1]:
+            nb = sub.visit(copy.deepcopy(b))
+            out.append(nb)
+        ret = sub.visit(copy.deepcopy(body[-1].value))
+        if isinstance(st, ast.Return):
+            last = ast.Return(value=ret)
+        elif isinstance(st, ast.Assign):
+            last = ast.Assign(targets=st.targets, value=ret)
+        else:
+            last = ast.Expr(value=ret)
+        out.append(last)
+        for o in out:
+            for n in ast.walk(o):
+                if not hasattr(n, 'lineno'):
+                    n.lineno = st.lineno
+                    n.col_offset = st.col_offset
+                    n.end_lineno = getattr(st, 'end_lineno', st.lineno)
+                    n.end_col_offset = getattr(st, 'end_col_offset', st.col_offset)
+                else:
+                    # lines of the helper body would point into another function: report the call site
+                    n.lineno = st.lineno
+                    n.end_lineno = getattr(st, 'end_lineno', st.lineno)
+        used.add(h.name)
+        changed[0] = True
+        return out
+
+    def rec(body):
+        new = []
+        for st in body:
+            ex = expand(st)
+            if ex is not None:
+                new.extend(ex)
+                continue
+            for attr in ('body', 'orelse', 'finalbody'):
+                sub = getattr(st, attr, None)
+                if isinstance(sub, list) and sub and isinstance(sub[0], ast.stmt) and not isinstance(st, (ast.FunctionDef, ast.ClassDef)):
+                    setattr(st, attr, rec(sub))
+            if isinstance(st, ast.Try):
+                for hd in st.handlers:
+                    hd.body = rec(hd.body)
+            new.append(st)
+        return new
+
+    node.body = rec(node.body)
+    return node if changed[0] else None
